@@ -25,7 +25,8 @@ os.makedirs(crate)
 shutil.copytree(os.path.join(ROOT, "replay", "src"), os.path.join(crate, "src"))
 shutil.copy(os.path.join(ROOT, "replay", "Cargo.lock"), os.path.join(crate, "Cargo.lock"))
 open(os.path.join(crate, "Cargo.toml"), "w").write(open(os.path.join(ROOT, "replay", "Cargo.toml.in")).read().replace("@REPO@", "/repo"))
-env = dict(os.environ, RUSTFLAGS="-C instrument-coverage", CARGO_TARGET_DIR=target, CARGO_NET_OFFLINE="true")
+env = dict(os.environ, RUSTFLAGS="-C instrument-coverage", CARGO_TARGET_DIR=target, CARGO_NET_OFFLINE="true",
+           LLVM_PROFILE_FILE="/tmp/reach-build-%p.profraw")   # instrumented proc-macros / build scripts would otherwise drop default_*.profraw into the package dirs (/repo!)
 subprocess.run(["cargo", "+nightly", "build", "--release", "--offline", "--quiet"], cwd=crate, env=env, check=True)
 binp = os.path.join(target, "release", "replay")
 
@@ -75,3 +76,5 @@ for kind, names in (("search", sorted(searches)), ("standin", sorted(standins)))
 json.dump(out, open(os.path.join(ROOT, "props", "reach.json"), "w"), indent=1, sort_keys=True)
 shutil.rmtree(crate, ignore_errors=True)
 shutil.rmtree(target, ignore_errors=True)
+for f in glob.glob("/tmp/reach-build-*.profraw") + glob.glob("/repo/default_*.profraw"):
+    os.remove(f)
